@@ -2425,8 +2425,17 @@ class Wallet(object):
                 keys_to_add = list(zip(*public_keys))
             new_ms_keys = []
             for ms_key_cosigners in keys_to_add:
-                new_ms_keys.append(self._new_key_multisig(list(ms_key_cosigners), name, account_id, change, cosigner_id,
-                                                      network, address_index, witness_type))
+                # Store the position of the key itself: with number_of_keys > 1 or an explicit path the index and
+                # change values of the derived keys differ from the address_index and change arguments
+                ms_address_index = address_index
+                ms_change = change
+                if ms_key_cosigners[0].key_type != 'single':
+                    if ms_key_cosigners[0].address_index is not None:
+                        ms_address_index = ms_key_cosigners[0].address_index
+                    if ms_key_cosigners[0].change is not None:
+                        ms_change = ms_key_cosigners[0].change
+                new_ms_keys.append(self._new_key_multisig(list(ms_key_cosigners), name, account_id, ms_change,
+                                                          cosigner_id, network, ms_address_index, witness_type))
             return new_ms_keys if new_ms_keys else None
 
         # Check for closest ancestor in wallet
